@@ -336,7 +336,23 @@ func (d *Downstream) flushAck() error {
 	d.dataIDAckBuffer = make(map[uint32]*message.DataID)
 	d.resultAckBuffer = make([]*message.DownstreamChunkResult, 0)
 
-	return d.wireConn.Load().SendDownstreamDataPointsAck(d.ctx, ack)
+	err := d.wireConn.Load().SendDownstreamDataPointsAck(d.ctx, ack)
+	if err != nil {
+		// The ack was not sent (the connection is gone): keep its content for the next flush, which
+		// happens after the stream has resumed, instead of dropping results and announcements.
+		for k, v := range ack.UpstreamAliases {
+			if _, ok := d.upstreamInfoAckBuffer[k]; !ok {
+				d.upstreamInfoAckBuffer[k] = v
+			}
+		}
+		for k, v := range ack.DataIDAliases {
+			if _, ok := d.dataIDAckBuffer[k]; !ok {
+				d.dataIDAckBuffer[k] = v
+			}
+		}
+		d.resultAckBuffer = append(ack.Results, d.resultAckBuffer...)
+	}
+	return err
 }
 
 func (d *Downstream) ackCompleteOrDone(ctx context.Context) <-chan *message.DownstreamChunkAckComplete {
